@@ -1122,3 +1122,67 @@ def rule_kwopos_index(check, rule):
                     else:
                         check.inconclusive(rule, st, 'recorded position not understood: %s' % show(idx)[:60], key=key)
     check.floor(rule, 'position records of converted keyword-only parameters', n, 1)
+
+
+def rule_empty_selection_guarded(check, rule):
+    """C12.R5: `_PokTranslator.__new__` hands back the function it was given when no name is selected.  If that function is itself a
+    translator, Python runs `__init__` on the returned object again (it is an instance of the class), with `func` = the object
+    itself: afterwards every call recurses.  As long as `__new__` has that pass-through, the public entry points must not let an
+    empty selection reach the constructor (`kwoargs()`, `posoargs()`, `autokwoargs` with nothing to convert return the no-op)."""
+    repo = check.repo
+    new = repo.func(PT + '.__new__', required=False)
+    if new is None:
+        check.holds(rule, '-', '_PokTranslator has no __new__: construction always makes a new object', key='empty-selection|no-new', nontrivial=False)
+        return
+    check.analysed(new)
+    it = Interp(repo, Policy())
+    paths = it.run(new)
+    check.absorb(it)
+    funcp = ('P', new.params()[0][1]) if len(new.params()[0]) > 1 else None
+    passthrough = [p for p in paths if p.status == 'return' and p.value == funcp]
+    if not passthrough:
+        check.holds(rule, site_of(new, new.node), '__new__ never hands back its argument', key='empty-selection|no-passthrough', nontrivial=False)
+        return
+    n = 0
+    for fname, names_idx in (('kwoargs', 1), ('posoargs', 1)):
+        fi = repo.func('%s:%s' % (MOD, fname), required=False)
+        if fi is None:
+            check.inconclusive(rule, '-', 'anchor %s vanished' % fname, key='empty-selection|%s' % fname)
+            continue
+        check.analysed(fi)
+        vararg = fi.params()[1]
+        names = ('P', vararg) if vararg else None
+        it2 = Interp(repo, Policy())
+        for p in it2.run(fi):
+            if p.status != 'return':
+                continue
+            v = p.value
+            builds = [s for s in subterms(v) if isinstance(s, tuple) and s and ((s[0] in ('C', 'O') and isinstance(s[1], str) and s[1].endswith('_PokTranslator')) or
+                                                                           (s[0] == 'CLS' and str(s[1]).endswith('_PokTranslator')) or
+                                                                           (s[0] == 'GLOB' and s[-1] == '_PokTranslator'))] \
+                or [e for e in p.effects if e.kind == 'call' and str(e.op).endswith('_PokTranslator')]
+            if not builds:
+                continue
+            # the start=/end= forms go through a helper that raises when the marker is not found: their selection is non-empty
+            if any(isinstance(s, tuple) and s and s[0] == 'FN' and str(s[1]).endswith(('_kwoargs_start', '_posoargs_end')) for s in subterms(v)) or \
+                    any(str(s).endswith(('_kwoargs_start', '_posoargs_end')) for s in subterms(v) if isinstance(s, str)):
+                continue
+            n += 1
+            key = 'empty-selection|%s' % fname
+            ln = ('C', 'len', (names,), ())
+            nonempty = any((a == ('truthy', names) and pol) or (a == ('truthy', ln) and pol) or
+                           (a[0] == 'eq' and set(a[1:]) == set([ln, K(0)]) and not pol) or
+                           (a[0] == 'cmp' and a[1] == '<' and a[2] == K(0) and a[3] == ln and pol) or
+                           (a[0] == 'cmp' and a[1] == '<=' and a[2] == ln and a[3] == K(0) and not pol) or
+                           (a[0] == 'cmp' and a[1] == '<' and a[2] == ln and a[3] == K(1) and not pol) or
+                           (a[0] == 'cmp' and a[1] == '<=' and a[2] == K(1) and a[3] == ln and pol)
+                           for a, pol in p.lits)
+            node = [e for e in p.effects if e.kind == 'return'][-1].node
+            if nonempty:
+                check.holds(rule, site_of(fi, node), '%s() builds a translator only for a non-empty selection' % fname, key=key)
+            else:
+                check.violation(rule, site_of(fi, node), '%s() lets an empty selection reach the translator constructor: __new__ then hands back the '
+                                'function it was given, and when that is already a translator __init__ runs on it again with func = itself '
+                                '(every later call recurses)' % fname, key=key, guards=' & '.join(show_lit(l) for l in p.lits)[:200],
+                                witness="autokwoargs(posoargs('a')(lambda a, b: 0))(1, 2) -> RecursionError")
+    check.floor(rule, 'translator-building paths of kwoargs()/posoargs()', n, 2)
